@@ -209,6 +209,24 @@ def check(prog, run):
                        "the enclosing type compared with the fragment type is `%s`: for a list or non-null field it is a wrapper, the "
                        "composite-type test fails and impossible spreads under such fields are accepted" % src)
 
+    # ---- M1 visited sets are scoped to the values they were filled for
+    rm = run.rule("M1", "every `if key in S: return ... S.add(key)` skip in the validation package is fed, at every call site, a set "
+                        "created for that computation (fresh set(), the function's own set forwarded unchanged in recursion, or a "
+                        "local set() shared only by calls with identical other arguments): otherwise a fragment marked as compared "
+                        "for one field map suppresses its comparison with another, and the verdict depends on selection order", 3)
+    from .. import visitedset
+    vfuncs = [f for f in prog.all_funcs() if f.module.name.startswith("py_gql.validation")]
+    idioms = visitedset.find_idioms(vfuncs)
+    shapes.require(any(f.qualname == "_conflicts_between_fields_and_fragment" for f, _s, _k in idioms),
+                   "C06.M1: the compared_fragments skip of _conflicts_between_fields_and_fragment was not recognised")
+    sites, problems = visitedset.check_sites(prog, vfuncs, idioms)
+    for f, S, keys in idioms:
+        run.looked_at(f)
+    for t in sites:
+        rm.instance(t)
+    for caller, node, key, msg in problems:
+        run.report(rm, "%s:%s:%s" % (caller.module.name, caller.qualname, key), caller.where(node), msg)
+
     # ---- R4 per-usage records
     r = run.rule("R4", "variable usages checked by VariablesInAllowedPositionChecker come from a container that records every "
                        "usage (appended per occurrence), not from a mapping keyed by the variable name alone", 1)
